@@ -188,9 +188,23 @@ func (b *builder) variant(base gen.MsgSpec) (gen.MsgSpec, string) {
 					first = v[:c]
 				}
 				if bi := strings.Index(first, ";branch"); bi >= 0 && !strings.Contains(first, "\"") {
-					ins := b.r.Pick([]string{";x=\"a,b\"", ";y=\"p;q\"", ";rport", ";ttl=1", ";z=\"\\\"\"", ";received=10.0.0.1", ";maddr=a.b-c_d", ";w=0123456789abcdef", ";e=\"\"", ";e=\"\";f=1", ";g=\"\\\\\"", ";x=a`b", ";k=v=w", ";pad=YWI=", ";=v", ";a b=c", ";x=\"a\x7f\"", ";y=\"p\x01;q\"", ";z=\"a\x7fb;c\";w=1"})
+					ins := b.r.Pick([]string{";x=\"a,b\"", ";y=\"p;q\"", ";rport", ";ttl=1", ";z=\"\\\"\"", ";received=10.0.0.1", ";maddr=a.b-c_d", ";w=0123456789abcdef", ";e=\"\"", ";e=\"\";f=1", ";g=\"\\\\\"", ";x=a`b", ";k=v=w", ";pad=YWI=", ";=v", ";a b=c", ";x=\"a\x7f\"", ";y=\"p\x01;q\"", ";z=\"a\x7fb;c\";w=1", ";x=a\\", ";k=v=w\\", ";q=\\"})
 					m.Hdrs[i].Val = v[:bi] + ins + v[bi:]
 					what = append(what, "via-params")
+					// white space that is legal but rare right behind the branch value
+					if b.r.Chance(1, 3) {
+						nv := m.Hdrs[i].Val
+						if bj := strings.Index(nv, ";branch="); bj >= 0 {
+							e := bj + len(";branch=")
+							for e < len(nv) && nv[e] != ';' && nv[e] != ',' && nv[e] != ' ' && nv[e] != '\t' {
+								e++
+							}
+							if e > bj+len(";branch=") && (e == len(nv) || nv[e] == ';') {
+								m.Hdrs[i].Val = nv[:e] + b.r.Pick([]string{"\t", " ", "\t ", "  "}) + ";rport" + nv[e:]
+								what = append(what, "via-ws")
+							}
+						}
+					}
 				}
 			}
 		case 9: // reorder header lines of different kinds (same-kind lines keep their order, so "first Via" etc. stay):
